@@ -178,10 +178,11 @@ INT_TYPES = {"int": ("s", 64), "byte": ("u", 8), "uint8": ("u", 8), "uint16": ("
 class P:
     """Recursive-descent parser over a token slice."""
 
-    def __init__(self, toks: Sequence[Tok], what: str):
+    def __init__(self, toks: Sequence[Tok], what: str, composite: bool = False):
         self.t = list(toks)
         self.i = 0
         self.what = what
+        self.composite = composite      # accept `&x` and empty composite literals `T{}`
 
     def fail(self, why: str) -> None:
         ctx = " ".join(x[1] for x in self.t[max(0, self.i - 6):self.i + 6])
@@ -213,7 +214,7 @@ class P:
 
     def unary(self):
         k, t = self.peek()
-        if k == "op" and t in ("-", "!", "^", "+"):
+        if k == "op" and (t in ("-", "!", "^", "+") or (self.composite and t == "&")):
             self.eat()
             return ("un", t, self.unary())
         return self.postfix(self.primary())
@@ -256,6 +257,11 @@ class P:
                 idx = self.expr()
                 self.eat("]")
                 e = ("index", e, idx)
+            elif self.composite and (k, t) == ("op", "{") and self.peek(1) == ("op", "}") \
+                    and e[0] in ("name", "sel"):
+                self.eat()
+                self.eat()
+                e = ("lit", e)
             else:
                 return e
 
@@ -274,6 +280,8 @@ def unparse(e) -> str:
         return unparse(e[1]) + "(" + ", ".join(unparse(a) for a in e[2]) + ")"
     if k == "index":
         return unparse(e[1]) + "[" + unparse(e[2]) + "]"
+    if k == "lit":
+        return unparse(e[1]) + "{}"
     if k == "un":
         return e[1] + unparse(e[2])
     return unparse(e[2]) + " " + e[1] + " " + unparse(e[3])
